@@ -228,6 +228,22 @@ let ref_query c (ans : string list) : (string * verdict) list =
              "rel_saturates", one "saturates" (lazy (rel_saturates dn x.s k)) s;
              "rel_strictly", one "strictly_intersects" (lazy (rel_strictly_intersects dn x.s k)) si ]
        | _ -> raise (Syntax "expected ans rel"))
+  | "relation_with_cg" ->
+      let m = nextz c in let b = nextz c in let a = take_z c n in
+      if m = Z0 then raise (Skip "equality congruence") else
+      let m = Z.abs m in
+      let e = { lcoefs = a; lcst = b } in
+      (match ans with
+       | ["ans"; "rel"; d; i; _s; si] ->
+           let inter = timed (fun () -> cg_intersects (nat n) e m x.s) None in
+           let incl = timed (fun () -> cg_included (nat n) e m x.s) None in
+           let one name r v = (match r with
+             | Some b -> if b = bool_of_string01 v then Ok else Fail (Printf.sprintf "%s: implementation %s, verified reference %b" name v b)
+             | None -> Undecided) in
+           [ "relcg_disjoint", one "is_disjoint" (Option.map not inter) d;
+             "relcg_included", one "is_included" incl i;
+             "relcg_strictly", one "strictly_intersects" (match inter, incl with Some a, Some b -> Some (a && not b) | _ -> None) si ]
+       | _ -> raise (Syntax "expected ans rel"))
   | "maximize" | "minimize" ->
       let e = read_expr_n c in
       let r = timed (fun () -> if q = "maximize" then q_maximize (nat n) e x.s else q_minimize (nat n) e x.s) None in
